@@ -26,6 +26,7 @@ import (
 	"seehuhn.de/go/sfnt/cmap"
 	"seehuhn.de/go/sfnt/glyf"
 	"seehuhn.de/go/sfnt/glyph"
+	"seehuhn.de/go/sfnt/mac"
 	"seehuhn.de/go/sfnt/opentype/coverage"
 	"seehuhn.de/go/sfnt/opentype/gdef"
 	"seehuhn.de/go/sfnt/opentype/gtab"
@@ -55,6 +56,16 @@ func (f *Font) Subset(glyphs []glyph.ID) *Font {
 				continue
 			}
 			c = s.SubsetCMap(c)
+			if c4, ok := c.(cmap.Format4); ok && key.PlatformID == 1 {
+				// Get has translated the Mac Roman codes to unicode.  The
+				// subtable is stored under its Mac key again, so the codes
+				// need to be translated back.
+				codes := cmap.Format4{}
+				for r, gid := range c4 {
+					codes[uint16(mac.Encode(string(rune(r)))[0])] = gid
+				}
+				c = codes
+			}
 			res.CMapTable[key] = c.Encode(key.Language)
 		}
 	}
